@@ -257,6 +257,12 @@ def bounds(tier):
                 "variants": LEVELS[lvl],
             }
         )
+    out["restrictions"] = [
+        "pools beyond 2 variables / 2 plates: one representative per relabelling of the (equal-sized) variables",
+        "4-factor graphs: only those whose factors are linked through shared variables; eliminate sets = all names "
+        "and all names but one",
+        "factor k is laid out with its inputs reversed when k is odd",
+    ]
     out["scales"] = list(SCALES)
     out["real_parameter_points"] = 2
     out["eliminate_sets"] = "E=all: all subsets of the names occurring in the graph; E=full-1: all names, all but one"
